@@ -7,6 +7,8 @@ ID = 'C16'
 THEOREMS = SC.THEOREMS + [
     ('EAO.Properties.C01', 'EAO.C01.nodal_balance_structured', 'a structured asset is a well-formed asset of the outer portfolio with dispatch rows at external nodes only; inner nodes balance by the inner rows'),
 ] + SB.THEOREMS_C16_BUILDERS
+from ..comp import structwinflat as SWF
+THEOREMS = THEOREMS + SWF.THEOREMS_C16_WINDOW
 PARTIAL = [SC.PARTIAL[0].replace('the per-builder identification of "right-hand sides and capacity bounds times k" with "all capacity parameters times k" is checked by the fixed-scale oracle on the real code, not proved',
                                  'the per-builder identification of "right-hand sides and capacity bounds times k" with "all capacity parameters times k" is PROVED for the LP builders (SimpleContract, Contract with takes, MultiCommodity, Transport, ExtendedTransport for k > 0 - at k = 0 the equation fails, machine-checked counterexamples, and the zero point is characterised separately -, Storage in LP form for every k); for plants / CHP and the MIP storage options it fails (capacities in row coefficients: known finding F-16c) and is searched by the fixed-scale oracle')] + list(SC.PARTIAL[1:])
 COMPONENTS = SC.COMPONENTS
@@ -14,11 +16,13 @@ RULE = ('scaled assets over captured real base problems (SimpleContract, Contrac
         'the objects of every case built in a way drawn from the seed - one shared Node object per name / a fresh Node(name) at every use (every asset, inner asset and the structured asset\'s own nodes) / the whole portfolio sent through to_json + load_from_json / inner portfolio and base made of deep copies - the correspondence and the oracles unchanged (nodes are identified by name), the references (flat portfolio, rescaled base) built with shared nodes; '
         'stream freeobl (comp/c16gen.py): a FREE scale (min_scale < max_scale) over base assets with an OBLIGATION - contracts that must take (min_cap > 0) or must deliver (max_cap < 0), scalar / profile / interval capacities, min_take > 0 and max_take < 0 over the horizon, storages that have to end fuller or emptier than they start or have an inflow they cannot keep, transports and multi-commodity contracts with a forced flow, the same behind a line inside a structured asset - next to wide markets, with the degenerate cost settings: fix_costs exactly 0 (float, int), next to nothing, negative, positive, with own windows / wacc, min_scale 0 or positive; oracle: every scale of a scan of [min_scale, max_scale] (5-7 points, both end points) fixed = base with all capacities * s/norm less fixed costs, and the free optimum is no worse than the best of that scan taken on the rescaled BASE and equals the rescaled base at the reported scale, which lies in the range; '
         'stream tzwin (comp/c16gen.py): zone-aware grids (8 zones, with and without a daylight-saving switch inside); the window of the structured asset (of the scaled asset) and the own windows of the wrapped assets (of the base, of the assets inside a structured base) given as zone-AWARE dates written in DIFFERENT zones (UTC, the zone of the grid, zones up to +11 h / -8 h away, a half-hour offset; 12% of the cases all in one zone), the wrapped boundaries within 3 steps of the wrapper\'s, on and between grid points, so that order in time and order of the wall-clock readings differ; the flat reference (the rescaled base) carries the windows intersected by hand BY INSTANT (later start, earlier end as points in time, written in UTC); oracles unchanged: structured vs flat (optimal value, solutions transported both ways, problem vectors / rows / dispatch rows at the outer nodes), fixed and free scale; '
+        'stream wrapargs (comp/c16gen.py): the keyword arguments the WRAPPER accepts next to its scale parameters (ScaledAsset takes start, end and wacc of Asset; not freq / profile) together with fixed costs that are there (positive, negative, float, int; 5% exactly 0), on horizons of three weeks to nine months in steps of half a day, 1, 2, 3 and 7 days (main time unit d or h): a wacc (3% - 50%) on the wrapper only / on the base only (the wrapper with wacc 0 as int or float, or without) / on both (the same, two different ones) / on every asset of the portfolio / on nobody; bases SimpleContract, Contract with takes, Storage 1|2 nodes, Transport, ExtendedTransport, MultiCommodity, Plant (LP), structured (the wacc on every wrapped asset), with and without own windows of wrapper and base; scale held fixed (40%) or free; oracles scaled_fixed / scaled_free as before, the reference computed from the scenario alone: the plain portfolio with the base at all capacities * s/norm (the base keeps its own wacc) less s * fix_costs * duration, the duration = sum of the lengths, as differences of instants in the main time unit, of the steps that begin inside the wrapper\'s window (nothing discounted, no grid object of the package); and the same through Portfolio.create_cost_samples (costs_only set-up on the same objects): the optimal point of the fixed-scale portfolio valued with the cost vector made for the same prices is worth that reference, and the entry of the scale variable is fix_costs * duration (also at scale 0); '
         'non-trivial = oracle compared a solved pair; distinct by case hash')
 ASSUMPTIONS = ['values compared with tolerance 2e-6 relative',
                'free scale: the best over the allowed range is evaluated on a scan of 4-7 fixed scales including both end points plus the reported scale (the value is concave in the scale for LP bases, so the scan bounds the best from below and the reported scale attains it)',
+               'stream wrapargs: the fixed costs of a scaled asset are s x cost rate x active duration as the statement says - a plain product, not a discounted cash flow, whatever wacc the wrapper, the base or other assets carry; the base asset\'s own cash flows are discounted with the base\'s wacc in the scaled asset as in the plain reference portfolio',
                'zone-aware window dates are compared as points in time; naive and zone-aware dates are not mixed within one wrapper (the package raises TypeError on the comparison)']
-EXPLANATION = 'theorems about the models of ScaledAsset / StructuredAsset on arbitrary base problems; correspondence on captured real base problems; equivalent-portfolio oracles on the real code; both on objects built with shared Node objects, with a Node object per use, re-loaded from JSON or deep-copied (the models know nodes by name only); free scales over bases with obligations and degenerate fixed costs; windows as zone-aware dates of different zones against references intersected by instant'
+EXPLANATION = 'theorems about the models of ScaledAsset / StructuredAsset on arbitrary base problems; correspondence on captured real base problems; equivalent-portfolio oracles on the real code; both on objects built with shared Node objects, with a Node object per use, re-loaded from JSON or deep-copied (the models know nodes by name only); free scales over bases with obligations and degenerate fixed costs; windows as zone-aware dates of different zones against references intersected by instant; the wrapper\'s own inherited keyword arguments (wacc) with non-zero fixed costs on horizons of weeks to months against a reference computed from the scenario alone, the cost vectors for price samples included'
 
 
 def scenarios(seed, tier):
@@ -38,9 +42,25 @@ def scenarios(seed, tier):
     # portfolio (the rescaled base) with the windows intersected by instant
     for i in range(160 if tier == 'quick' else 1000):
         yield 'tz%d' % i, G16.gen_case(random.Random(rnd.getrandbits(48)), 'tzwin')
+    # keyword arguments of the wrapper itself (wacc of the ScaledAsset; on the wrapper only / the base only / both / everything /
+    # nobody) with fixed costs that are there, on horizons of weeks to months: against the plain portfolio with the rescaled base
+    # less s * fix_costs * duration, the duration from the instants of the scenario; the cost vectors for price samples valued too
+    rnd = random.Random(seed * 104729 + 16161616)
+    for i in range(90 if tier == 'quick' else 600):
+        yield 'wa%d' % i, G16.gen_case(random.Random(rnd.getrandbits(48)), 'wrapargs')
+    # wrappers WITH windows against the flat portfolio with intersected windows, as EAO.C16W states it (comp/structwinflat.py)
+    import random as _random
+    _rsw = _random.Random(seed * 104729 + 1617)
+    for i in range(80 if tier == 'quick' else 500):
+        yield 'swf%d' % i, {'_stream': 'structwinflat', 'case': SWF.gen_case(_random.Random(_rsw.getrandbits(48)))}
 
 
 def run_case(case, drv):
+    if isinstance(case, dict) and case.get('_stream') == 'structwinflat':
+        r = SWF.run_case(case['case'], drv)
+        return {'evaluated': 1, 'nontrivial': True, 'features': ['stream:structwinflat'],
+                'disagreements': [d if isinstance(d, dict) else {'component': 'wrapper windows vs flat', 'detail': d} for d in r['disagreements']],
+                'violations': r['violations']}
     if isinstance(case, dict) and case.get('_stream') == 'scalebuild':
         r = SB.run_case(case['case'], drv)
         r.setdefault('evaluated', 1)
